@@ -2,6 +2,7 @@ import P9Model.Session.Dispatch
 import P9Model.Session.Frame
 import P9Model.Spec.Coherence
 import P9Model.Session.Calls
+import P9Model.Session.Refuse
 /-!
 # C08 — Path coherence under rename/unlink and fencing of deleted paths
 -/
@@ -15,19 +16,6 @@ structure Fenced (fid r : Nat) (c : Ctx) : Prop where
   inRange : r < c.st.refs.length
   live : (c.st.refs.getD r default).refs ≥ 1
   deleted : (c.st.nodes.getD (c.st.refs.getD r default).node default).deleted = true
-
-/-- what a refusal leaves behind: no backend call was made, the oracle tape is untouched, fid
-table and path tree are as before -/
-def Untouched (c c' : Ctx) : Prop :=
-  c'.calls = c.calls ∧ c'.tape = c.tape ∧ c'.st.fids = c.st.fids ∧ c'.st.nodes = c.st.nodes
-
-/-- the context inside `withFid`: the reference count raised by one -/
-def pinned (r : Nat) (c : Ctx) : Ctx :=
-  { c with st := { c.st with refs := c.st.refs.set r { (c.st.refs.getD r default) with refs := (c.st.refs.getD r default).refs + 1 } } }
-
-theorem pinned_getD (r : Nat) (c : Ctx) (h : r < c.st.refs.length) :
-    (pinned r c).st.refs.getD r default = { (c.st.refs.getD r default) with refs := (c.st.refs.getD r default).refs + 1 } := by
-  simp [pinned, List.getD_eq_getElem?_getD, List.getElem?_set, h]
 
 /-- **Generic fencing lemma**: a handler of the shape `LookupFID; defer DecRef; body` whose body
 refuses on a deleted path node – making no backend call, leaving tape, fid table, path tree and
@@ -116,32 +104,6 @@ theorem fenced_unlinkat (m : Msg) (r : Nat) (c : Ctx) (hs : safeName (m.str 1) =
 
 /-! ### walking to a child from a fenced directory fid: ENOENT before the backend -/
 
-/-- the reference count lowered by one -/
-def unpinned (r : Nat) (c : Ctx) : Ctx :=
-  { c with st := { c.st with refs := c.st.refs.set r { (c.st.refs.getD r default) with refs := (c.st.refs.getD r default).refs - 1 } } }
-
-theorem getRef_eval (r : Nat) (c : Ctx) : getRef r c = .ok (c.st.refs.getD r default) c := rfl
-theorem incRef_eval (r : Nat) (c : Ctx) : incRef r c = .ok () (pinned r c) := rfl
-theorem isDeleted_eval (r : Nat) (c : Ctx) :
-    isDeleted r c = .ok (c.st.nodes.getD (c.st.refs.getD r default).node default).deleted c := rfl
-
-/-- dropping a reference that is not the last one: no Close, only the count changes -/
-theorem decRefU_noclose (r : Nat) (c : Ctx) (h : (c.st.refs.getD r default).refs ≠ 1) :
-    decRefU r c = .ok () (unpinned r c) := by
-  unfold decRefU decRef' getS
-  simp only [bind]
-  unfold decRef getRef getS setRef modS
-  simp only [bind, pure, h, ↓reduceIte]
-  rfl
-
-theorem unpinned_pinned_getD (r : Nat) (c : Ctx) (h : r < c.st.refs.length) :
-    (unpinned r (pinned r c)).st.refs.getD r default = c.st.refs.getD r default := by
-  have hx := pinned_getD r c h
-  have hlen : r < (pinned r c).st.refs.length := by simp [pinned]; exact h
-  simp only [unpinned, List.getD_eq_getElem?_getD, List.getElem?_set_self hlen, Option.getD_some]
-  simp only [← List.getD_eq_getElem?_getD, hx]
-  simp
-
 /-- **Walk from a fenced fid**: a Twalk / Twalkgetattr with at least one (safe) name through a
 fenced directory fid answers ENOENT; no backend call, tape, fid table and path tree untouched.
 (If the fid is opened and would replace itself the session layer answers EBUSY first; a fenced
@@ -170,50 +132,6 @@ theorem fenced_walk (m : Msg) (g : Bool) (r : Nat) (c : Ctx) (h : Fenced (m.int 
   · rw [unpinned_pinned_getD r (pinned r c) hlen]
 
 /-! ### two-fid requests: the first fid fenced, the second bound -/
-
-/-- `fid` is bound to the live reference `t` (any path node) -/
-structure Bound (fid t : Nat) (c : Ctx) : Prop where
-  bound : (c.st.fids.find? (·.1 == (c.conn, fid))).map (·.2) = some t
-  inRange : t < c.st.refs.length
-  live : (c.st.refs.getD t default).refs ≥ 1
-
-theorem getD_set_ref (l : List Ref) (n k : Nat) (v : Ref) :
-    (l.set n v).getD k default = if n = k ∧ n < l.length then v else l.getD k default := by
-  simp only [List.getD_eq_getElem?_getD, List.getElem?_set]
-  by_cases h : n = k
-  · subst h
-    by_cases hl : n < l.length
-    · simp [hl]
-    · simp [hl]
-  · simp [h]
-
-/-- pinning and unpinning a reference in range gives back every reference as it was -/
-theorem unpinned_pinned_all (t k : Nat) (c : Ctx) (h : t < c.st.refs.length) :
-    (unpinned t (pinned t c)).st.refs.getD k default = c.st.refs.getD k default := by
-  by_cases hk : t = k
-  · subst hk; exact unpinned_pinned_getD t c h
-  · simp only [unpinned, pinned, getD_set_ref, hk, false_and, ↓reduceIte]
-
-theorem pinned_other (t k : Nat) (c : Ctx) (hk : t ≠ k) :
-    (pinned t c).st.refs.getD k default = c.st.refs.getD k default := by
-  simp only [pinned, getD_set_ref, hk, false_and, ↓reduceIte]
-
-/-- a `LookupFID; defer DecRef; body` on a bound fid whose body refuses at once: the result
-context is the one we started from with the count raised and lowered again -/
-theorem withFid_refuse (fid t e : Nat) (body : Nat → M Reply) (c : Ctx) (h : Bound fid t c)
-    (hb : body t (pinned t c) = .ok (rerr e) (pinned t c)) :
-    withFid fid body c = .ok (rerr e) (unpinned t (pinned t c)) := by
-  have hl : lookupFid fid c = .ok (some t) (pinned t c) := by
-    unfold lookupFid lookupFidRaw getS getConn incRef setRef modS
-    simp [bind, pure, h.bound, pinned]
-  have hx := pinned_getD t c h.inRange
-  have hne : ((pinned t c).st.refs.getD t default).refs ≠ 1 := by
-    rw [hx]
-    have hlive := h.live
-    show (c.st.refs.getD t default).refs + 1 ≠ 1
-    omega
-  unfold withFid
-  simp only [bind, hl, finally', hb, decRefU_noclose t _ hne]
 
 /-- the node-deleted test of a body evaluated inside two nested pins -/
 theorem deleted_pinned2 {fid r : Nat} {c : Ctx} (h : Fenced fid r c) (t : Nat) :
